@@ -116,5 +116,6 @@ macro_rules! nist_derive_harness {
 nist_derive_harness!(c03_l4_derive_nist_p256, DhP256, 32, 0xff, rfc::P256_ORDER, 0x0010);
 //@h name=c03_l4_derive_nist_p384 tier=quick mode=func prop=C03 timeout=1200 replay=log desc="same for DhP384: Nsk = 48, bitmask 0xFF" bounds="as P-256"
 nist_derive_harness!(c03_l4_derive_nist_p384, DhP384, 48, 0xff, rfc::P384_ORDER, 0x0011);
-//@h name=c03_l4_derive_nist_p521 tier=thorough mode=func slots=4 prop=C03 timeout=7200 replay=log desc="same for DhP521: Nsk = 66, bitmask 0x01 (a candidate with higher bits set is accepted after masking, one that is >= n after masking is rejected)" bounds="as P-256"
-nist_derive_harness!(c03_l4_derive_nist_p521, DhP521, 66, 0x01, rfc::P521_ORDER, 0x0012);
+// The P-521 instance (Nsk = 66, bitmask 0x01 - the only curve on which the mask is not the identity) did
+// not finish: 2160-3200 s of symbolic execution, then CBMC died, alone on the machine, with and without
+// a larger field-sensitivity bound.  It is NOT registered; the P-521 bitmask is therefore not decided.
